@@ -18,6 +18,7 @@ type Gates struct {
 	held    map[string]bool
 	waiting []*waiter
 	hits    map[string]int
+	lastA   map[string]int64
 	stuck   []string
 	rec     *Rec
 	record  bool
@@ -47,6 +48,7 @@ func NewGates(rec *Rec) *Gates {
 	g := &Gates{
 		held:    map[string]bool{},
 		hits:    map[string]int{},
+		lastA:   map[string]int64{},
 		rec:     rec,
 		maxPark: 15 * time.Second,
 	}
@@ -89,6 +91,7 @@ func (g *Gates) point(pt string, sess erpc.Session, a, b int64) {
 	}
 	g.mu.Lock()
 	g.hits[pt]++
+	g.lastA[pt] = a
 	rec := g.record
 	var nap time.Duration
 	yield := false
@@ -225,6 +228,9 @@ func (g *Gates) ReleaseAll() {
 
 // Hits returns how often a point fired since the last ResetHits.
 func (g *Gates) Hits(pt string) int { g.mu.Lock(); defer g.mu.Unlock(); return g.hits[pt] }
+
+// LastA returns the first argument of the most recent firing of a point.
+func (g *Gates) LastA(pt string) int64 { g.mu.Lock(); defer g.mu.Unlock(); return g.lastA[pt] }
 
 // ResetHits clears hit counters and the stuck list.
 func (g *Gates) ResetHits() {
